@@ -9,7 +9,7 @@
 (*        .. workbook-level fields ..]                                     *)
 (*   S = [cells |-> <<cell>>  sorted by (r, c), cell = [r, c, k, v, b, f,   *)
 (*                            rt, s]  (k = kind, s = style digest),        *)
-(*        rows  |-> <<[r, ht, hid, custom, thick, s]>>  sorted by r,        *)
+(*        rows  |-> <<[r, ht, hid, custom, thick, desc, s]>> sorted by r,   *)
 (*        cols  |-> <<[c, w, hid, best, s]>>            sorted by c,        *)
 (*        .. annotations: compared as they are ..]                         *)
 (* No operator looks at any other field, so the same operators serve the   *)
@@ -28,7 +28,7 @@
 EXTENDS Naturals, Sequences, FiniteSets, TLC, SequencesExt
 
 BlankPlain(c, plain) == c.k = "blank" /\ c.f = "" /\ c.s = plain
-DefaultRow(x, plain) == x.ht = "0" /\ ~x.hid /\ ~x.custom /\ ~x.thick /\ x.s = plain
+DefaultRow(x, plain) == x.ht = "0" /\ ~x.hid /\ ~x.custom /\ ~x.thick /\ x.desc = "0" /\ x.s = plain
 DefaultCol(x, plain) == x.w = "8.38" /\ ~x.hid /\ ~x.best /\ x.s = plain
 Restyle(x, D, plain) == IF x.s = D THEN [x EXCEPT !.s = plain] ELSE x
 RestyleAll(q, D, plain) == [i \in DOMAIN q |-> Restyle(q[i], D, plain)]
@@ -75,7 +75,8 @@ FileView(f) == [parts |-> f.parts, strings |-> f.strings]
 (* file (another default font); "S1", "S2" ordinary styles.                *)
 (***************************************************************************)
 CONSTANTS MaxGen,          \* number of load/save generations explored
-          DropStyledBlank  \* FALSE = the design; TRUE = deviant writer that drops every blank cell (must be refuted)
+          DropStyledBlank, \* FALSE = the design; TRUE = deviant writer that drops every blank cell (must be refuted)
+          RowSkip          \* "never" | "default" | "forgets-hidden" (deviant, must be refuted): see RowSkipped
 
 Eff(s) == IF s = "L0" THEN "P" ELSE s          \* effective formatting = what the digest is computed from
 
@@ -91,21 +92,25 @@ LoadCell(f, rc) ==
    k |-> IF rc.t = "s" THEN "text" ELSE IF rc.t = "n" THEN "num" ELSE "blank",
    v |-> IF rc.t = "s" THEN f.sst[rc.v] ELSE rc.v,
    f |-> rc.f, s |-> StyleOfXf(f, rc.xf)]
-LoadRow(f, rr) == [r |-> rr.r, ht |-> rr.ht, s |-> StyleOfXf(f, rr.xf)]
+LoadRow(f, rr) == [r |-> rr.r, ht |-> rr.ht, hid |-> rr.hid, s |-> StyleOfXf(f, rr.xf)]
+LoadCol(f, cc) == [c |-> cc.c, w |-> cc.w, hid |-> cc.hid, s |-> StyleOfXf(f, cc.xf)]
 
-(* memory = [x0, xfs, sheets: <<[cells: set of cells, rows: set of rows]>>, extra] *)
+(* memory = [x0, xfs, sheets: <<[cells: set of cells, rows: set of rows, cols: set of columns]>>, extra] *)
 Load(f) ==
   [x0 |-> f.x0, xfs |-> f.xfs, extra |-> f.extra,
    sheets |-> [i \in DOMAIN f.sheets |->
                  [cells |-> {LoadCell(f, rc) : rc \in f.sheets[i].cells},
                   (* the reader creates a row entry for every <row> element *)
-                  rows  |-> {LoadRow(f, rr) : rr \in f.sheets[i].rows}]]]
+                  rows  |-> {LoadRow(f, rr) : rr \in f.sheets[i].rows},
+                  cols  |-> {LoadCol(f, cc) : cc \in f.sheets[i].cols}]]]
 
 (* ---- save ---------------------------------------------------------------------------------- *)
 CellLess(a, b) == a.r < b.r \/ (a.r = b.r /\ a.c < b.c)
 SortedCells(T) == SetToSortSeq(T, CellLess)
 RowLess(a, b)  == a.r < b.r
 SortedRows(T)  == SetToSortSeq(T, RowLess)
+ColLess(a, b)  == a.c < b.c
+SortedCols(T)  == SetToSortSeq(T, ColLess)
 
 (* cells the writer emits (Cell::write_to: nothing for an empty value with an empty style) *)
 Written(cs) == {x \in cs : ~(x.k = "blank" /\ x.f = "" /\ (x.s = "P" \/ DropStyledBlank))}
@@ -131,12 +136,18 @@ Flatten(seqs) == FoldLeft(LAMBDA a, b : a \o b, <<>>, seqs)
 TextsOf(q) == [i \in DOMAIN SelectSeq(q, LAMBDA x : x.k = "text") |-> SelectSeq(q, LAMBDA x : x.k = "text")[i].v]
 IndexIn(q, t) == CHOOSE j \in DOMAIN q : q[j] = t
 
-RowNonDefault(x) == x.ht # "0" \/ x.s # "P"
+(* which <row> elements of rows WITHOUT cells the writer leaves out: "never" (the code as it is); "default" (a row
+   entry all of whose attributes have their default value: legitimate, Norm does not count such an entry as content);
+   "forgets-hidden" (the deviant design: the test for "nothing of its own" looks at height and style only) *)
+RowSkipped(x) == CASE RowSkip = "never" -> FALSE
+                   [] RowSkip = "default" -> x.ht = "0" /\ x.s = "P" /\ ~x.hid
+                   [] RowSkip = "forgets-hidden" -> x.ht = "0" /\ x.s = "P"
 Save(m, rid) ==
   LET w     == AllWritten(m)
       rowsq == [i \in DOMAIN m.sheets |-> SortedRows(m.sheets[i].rows)]
       used  == Flatten([i \in DOMAIN w |-> [j \in DOMAIN w[i] |-> w[i][j].s]])
                \o Flatten([i \in DOMAIN rowsq |-> [j \in DOMAIN rowsq[i] |-> rowsq[i][j].s]])
+               \o Flatten([i \in DOMAIN m.sheets |-> [j \in DOMAIN SortedCols(m.sheets[i].cols) |-> SortedCols(m.sheets[i].cols)[j].s]])
       xfs2  == InternAll(m.x0, m.xfs, used)
       sst   == Dedup(Flatten([i \in DOMAIN w |-> TextsOf(w[i])]), <<>>)
       rawc(x) == [r |-> x.r, c |-> x.c,
@@ -144,20 +155,25 @@ Save(m, rid) ==
                   v |-> IF x.k = "text" THEN IndexIn(sst, x.v) ELSE x.v,
                   f |-> x.f, xf |-> XfOf(m.x0, xfs2, x.s)]
       (* a <row> is written for every row entry and for every row that has a written cell *)
-      rowset(i) == {[r |-> x.r, ht |-> x.ht, xf |-> XfOf(m.x0, xfs2, x.s)] : x \in m.sheets[i].rows}
-                   \cup {[r |-> x.r, ht |-> "0", xf |-> -1] :
+      hascell(i, r) == \E y \in Range(w[i]) : y.r = r
+      rowset(i) == {[r |-> x.r, ht |-> x.ht, hid |-> x.hid, xf |-> XfOf(m.x0, xfs2, x.s)] :
+                           x \in {y \in m.sheets[i].rows : hascell(i, y.r) \/ ~RowSkipped(y)}}
+                   \cup {[r |-> x.r, ht |-> "0", hid |-> FALSE, xf |-> -1] :
                            x \in {y \in Range(w[i]) : ~\E z \in m.sheets[i].rows : z.r = y.r}}
+      (* every column entry is written *)
+      colset(i) == {[c |-> x.c, w |-> x.w, hid |-> x.hid, xf |-> XfOf(m.x0, xfs2, x.s)] : x \in m.sheets[i].cols}
   IN [x0 |-> m.x0, xfs |-> xfs2, sst |-> sst, extra |-> m.extra, rid |-> rid,
-      sheets |-> [i \in DOMAIN m.sheets |-> [cells |-> {rawc(x) : x \in Range(w[i])}, rows |-> rowset(i)]]]
+      sheets |-> [i \in DOMAIN m.sheets |-> [cells |-> {rawc(x) : x \in Range(w[i])}, rows |-> rowset(i), cols |-> colset(i)]]]
 
 (* ---- projections ---------------------------------------------------------------------------- *)
 ProjCell(x) == [r |-> x.r, c |-> x.c, k |-> x.k, v |-> x.v, b |-> "", f |-> x.f, rt |-> "", s |-> Eff(x.s)]
-ProjRow(x)  == [r |-> x.r, ht |-> x.ht, hid |-> FALSE, custom |-> x.ht # "0", thick |-> FALSE, s |-> Eff(x.s)]
+ProjRow(x)  == [r |-> x.r, ht |-> x.ht, hid |-> x.hid, custom |-> x.ht # "0", thick |-> FALSE, desc |-> "0", s |-> Eff(x.s)]
+ProjCol(x)  == [c |-> x.c, w |-> x.w, hid |-> x.hid, best |-> FALSE, s |-> Eff(x.s)]
 Proj(m) == [plain |-> "P",
             sheets |-> [i \in DOMAIN m.sheets |->
                           [cells |-> [j \in DOMAIN SortedCells(m.sheets[i].cells) |-> ProjCell(SortedCells(m.sheets[i].cells)[j])],
                            rows  |-> [j \in DOMAIN SortedRows(m.sheets[i].rows) |-> ProjRow(SortedRows(m.sheets[i].rows)[j])],
-                           cols  |-> <<>>]]]
+                           cols  |-> [j \in DOMAIN SortedCols(m.sheets[i].cols) |-> ProjCol(SortedCols(m.sheets[i].cols)[j])]]]]
 (* what the independent decoder reports about a file *)
 (* the string inventory as a bag: text -> number of items with that text *)
 BagOf(q) == [t \in Range(q) |-> Cardinality({j \in DOMAIN q : q[j] = t})]
@@ -186,7 +202,9 @@ EditMem(m, s, r, c, k, v) ==
       sty == IF old = {} THEN "P" ELSE (CHOOSE x \in old : TRUE).s
       new == [r |-> r, c |-> c, k |-> k, v |-> v, f |-> "", s |-> sty]
   IN [m EXCEPT !.sheets[s].cells = (@ \ old) \cup {new},
-               !.sheets[s].rows  = IF \E x \in @ : x.r = r THEN @ ELSE @ \cup {[r |-> r, ht |-> "0", s |-> "P"]}]
+               !.sheets[s].rows  = IF \E x \in @ : x.r = r THEN @ ELSE @ \cup {[r |-> r, ht |-> "0", hid |-> FALSE, s |-> "P"]},
+               (* ... and a default-valued column entry *)
+               !.sheets[s].cols  = IF \E x \in @ : x.c = c THEN @ ELSE @ \cup {[c |-> c, w |-> "8.38", hid |-> FALSE, s |-> "P"]}]
 EditedCell(m, s, r, c) == ProjCell(CHOOSE x \in m.sheets[s].cells : x.r = r /\ x.c = c)
 
 EditCell(s, r, c, k, v) ==
